@@ -646,6 +646,7 @@ class Decoder(nn.Module):
         """
         outputs = {
             "outputs": [],
+            "encoder_output": x,
         }
         for i in range(len(self.decoder_stack)):
             if i < self.residuals:
